@@ -346,7 +346,14 @@ fn gen_tx(r: &mut Rng, w: &World, extra: &[Op], salt: u64, limit_case: bool) -> 
             deps.push((inputs[0], false)); // the same cell as input and as dep
         }
     }
-    let hdeps = (0..r.below(3)).map(|_| r.below(5)).collect();
+    let mut hdeps: Vec<u64> = (0..r.below(3)).map(|_| r.below(5)).collect();
+    if limit_case {
+        // keep everything else acceptable so that the expansion count decides
+        inputs = vec![if live.is_empty() { (1, 0) } else { live[0] }];
+        nwit = 0;
+        hdeps.clear();
+        deps.retain(|d| d.1 || live.contains(&d.0));
+    }
     let outs = (0..r.range(1, 3)).map(|_| Data::Raw(r.below(2) as u8)).collect();
     TxSpec { inputs, deps, hdeps, nwit, outs, salt }
 }
@@ -392,6 +399,21 @@ pub fn stream_seq(seed: u64, n: u64, sink: &mut Sink) {
         let mut ids = Ids::new();
         let (store, headers) = make_store(&w, &mut ids);
         let keys: Vec<Op> = w.cells.keys().cloned().collect();
+        // OverlayCellProvider (the pool's view over the chain): some cells are shadowed
+        let mut over: BTreeMap<Op, St> = BTreeMap::new();
+        if ci % 3 == 1 {
+            for o in keys.iter().filter(|o| o.0 < 50) {
+                match r.below(6) {
+                    0 => { over.insert(*o, St::Dead); }
+                    1 => { over.insert(*o, St::Live(Data::Raw(1))); }
+                    _ => {}
+                }
+            }
+            over.insert((r.range(1, 9), 3), St::Live(Data::Raw(0)));
+            sink.count("seq_with_overlay");
+        }
+        let over_store = { let ow = World { cells: over.clone(), hdr_ok: HashSet::new() }; make_store(&ow, &mut ids).0 };
+        let eff: BTreeMap<Op, St> = { let mut m = w.cells.clone(); for (k, v) in over.iter() { m.insert(*k, v.clone()); } m };
         let seen0: Vec<Op> = (0..r.below(3)).map(|_| *r.pick(&keys)).collect();
         let txs: Vec<TxSpec> = (0..r.range(1, 4)).map(|k| gen_tx(&mut r, &w, &[], k, limit_case && k == 0)).collect();
         for t in &txs {
@@ -405,7 +427,13 @@ pub fn stream_seq(seed: u64, n: u64, sink: &mut Sink) {
             let before = seen.clone();
             let got = {
                 let (s, st, h) = (&mut seen, &store, &headers);
-                let res = std::panic::catch_unwind(std::panic::AssertUnwindSafe(|| resolve_transaction(view, s, st, h)));
+                let res = std::panic::catch_unwind(std::panic::AssertUnwindSafe(|| {
+                    if over.is_empty() {
+                        resolve_transaction(view, s, st, h)
+                    } else {
+                        resolve_transaction(view, s, &OverlayCellProvider::new(&over_store, st), h)
+                    }
+                }));
                 match res {
                     Err(_) => None,
                     Ok(Ok(rtx)) => Some(classify_ok(&rtx, &ids)),
@@ -414,9 +442,10 @@ pub fn stream_seq(seed: u64, n: u64, sink: &mut Sink) {
             };
             sink.evaluations += 1;
             sink.count(&format!("resolve_{}", rr_class(&got)));
-            let want_ok = spec_tx_ok(t, &spent, |o| match w.cells.get(o) { Some(St::Live(d)) => Some(d.clone()), _ => None }, &w.hdr_ok);
+            let want_ok = spec_tx_ok(t, &spent, |o| match eff.get(o) { Some(St::Live(d)) => Some(d.clone()), _ => None }, &w.hdr_ok);
             let desc = || json!({"stream": "seq", "index": ci, "seed": seed, "tx_number": k, "tx": tx_json(t), "already_spent": spent.iter().collect::<Vec<_>>(),
                 "cells": w.cells.iter().map(|(o, s)| json!([o, match s { St::Live(Data::Raw(_)) => json!("live"), St::Live(Data::Group(l)) => json!({"live_group": l}), St::Dead => json!("dead") }])).collect::<Vec<_>>(),
+                "overlay_cells": over.iter().map(|(o, s)| json!([o, match s { St::Live(_) => "live", St::Dead => "dead" }])).collect::<Vec<_>>(),
                 "valid_headers": w.hdr_ok, "observed": format!("{:?}", got), "rule_says_accept": want_ok});
             match &got {
                 None => sink.violation("resolve_transaction panicked", desc(), None),
@@ -443,8 +472,8 @@ pub fn stream_seq(seed: u64, n: u64, sink: &mut Sink) {
         }
         sink.distinct.insert(format!("q{:?}{:?}", w.cells, txs));
         let coq = format!(
-            "mkSeqCase {} {} {} {} {}",
-            coq_list(&seen0, op_coq), cells_coq(&w.cells),
+            "mkSeqCase {} {} {} {} {} {}",
+            coq_list(&seen0, op_coq), cells_coq(&over), cells_coq(&w.cells),
             coq_list(&w.hdr_ok.iter().collect::<Vec<_>>(), |h| coq_n(10_000 + **h as u128)),
             coq_list(&txs, tx_coq), coq_list(&results, rr_coq)
         );
